@@ -26,7 +26,10 @@ func transpileOne(parser ParseState, file string) ParseState {
 			base := frt.Pipe(filepath.Base(file), (func(_r0 string) string { return strings.TrimSuffix(".fo", _r0) }))
 			newFname := (("gen_" + base) + ".go")
 			dest := filepath.Join(dir, newFname)
-			sys.WriteFile(dest, res)
+			written := sys.WriteFile(dest, res)
+			frt.IfOnly(frt.OpNot(written), (func() {
+				frt.Panicf1("Can't write file: %s", dest)
+			}))
 		}))
 		return ps2
 	}), (func() ParseState {
